@@ -500,7 +500,7 @@ func drawScript(t *rapid.T, format string, base []byte, canSplice bool) []Mut {
 	ts := targetsFor(format, base)
 	classes, byClass := classesOf(ts)
 	isBin := format == "zng" || format == "vng"
-	ops := []string{"trunc", "trunc", "flip", "flip", "flip", "set", "set", "set", "set", "ins", "ins", "rep", "del", "dup"}
+	ops := []string{"flip", "flip", "flip", "set", "set", "set", "set", "ins", "ins", "rep", "rep", "del", "dup", "trunc"}
 	if canSplice {
 		ops = append(ops, "splice", "splice")
 	}
@@ -523,6 +523,12 @@ func drawScript(t *rapid.T, format string, base []byte, canSplice bool) []Mut {
 			m.Off = rapid.IntRange(0, len(base)).Draw(t, "off")
 		}
 		switch m.Op {
+		case "trunc":
+			// any offset, but mostly in the last third: an early cut leaves nothing to decode
+			if len(base) > 3 && rapid.IntRange(0, 3).Draw(t, "late?") > 0 {
+				m.Class = "tail"
+				m.Off = len(base) - rapid.IntRange(0, len(base)/3).Draw(t, "fromend")
+			}
 		case "flip":
 			m.N = rapid.IntRange(0, 7).Draw(t, "bit")
 		case "set", "ins":
@@ -548,11 +554,12 @@ func genBytes(t *rapid.T) Case {
 	if vt.Thorough() {
 		maxLen = 40
 	}
+	// (rapid favours small draws: the generated encodings come first)
 	switch src := rapid.IntRange(0, 19).Draw(t, "source"); {
-	case src < 2 && len(repoPool) > 0:
+	case src >= 18 && len(repoPool) > 0:
 		e := rapid.SampledFrom(repoPool).Draw(t, "repo")
 		c.Format, c.Base, c.Origin = e.Format, e.Data, "repo:"+e.Name
-	case src < 4:
+	case src >= 16:
 		h := rapid.SampledFrom(hostilePool).Draw(t, "hostilebase")
 		c.Format, c.Base, c.Origin = h.Format, h.Data, "hostile:"+h.Name
 	default:
